@@ -50,7 +50,7 @@ def scenarios(tier):
                 "formats": (DEFAULT_NS,), "observer": True,
                 "threads": {"T1": [("store_meta", "p1", None, "v2")], "T2": [("store_meta", "p1", None, "v1")]}})
     if tier == "thorough":
-        out.append({"name": "store(p1,L) || store(p2,L) same new content", "init": "empty", "pids": ("p1", "p2"),
+        out.append({"name": "store(p1,L) || store(p2,L) same new content", "init": "empty", "pids": ("p1", "p2"), "time_cap": 400,
                     "observer": True, "threads": {"T1": [("store", "p1", "L", None)], "T2": [("store", "p2", "L", None)]}})
     return out
 
